@@ -861,10 +861,16 @@ func MultiSectionStream(seed int64) *Stream {
 	for i := 0; i < 3; i++ {
 		sdtSecs = append(sdtSecs, SecSDT(modelSDT(2+i), ref.SecHdr{CNI: true, SN: uint8(i), LSN: 2}))
 	}
+	// the first packet of each multi-section unit carries an adaptation field with every flag set that does not change
+	// how the unit is assembled: all the data of the unit share that packet as their FirstPacket
+	withAF := func(u SUnit, k int) SUnit {
+		u.AF = &ref.AF{Disc: true, RAI: true, ESPrio: true, PCR: &ref.PCR{Base: uint64(1000 + k), Ext: uint16(k)}, HasPrivate: true, Private: []byte{0xd1, byte(k)}}
+		return u
+	}
 	lists := [][]*ref.Pkt{
-		Packetize(PSIUnit(0, 0, patSecs, nil), nil, &ccs[0], true),
-		Packetize(PSIUnit(0x1001, 0, [][]byte{SecPMT(pmt, ref.SecHdr{CNI: true, SN: 0, LSN: 1}), SecPMT(modelPMT(1, 0x100, 2), ref.SecHdr{CNI: true, SN: 1, LSN: 1})}, nil), nil, &ccs[1], true),
-		Packetize(PSIUnit(0x11, 0, sdtSecs, nil), nil, &ccs[2], true),
+		Packetize(withAF(PSIUnit(0, 0, patSecs, nil), 1), nil, &ccs[0], true),
+		Packetize(withAF(PSIUnit(0x1001, 0, [][]byte{SecPMT(pmt, ref.SecHdr{CNI: true, SN: 0, LSN: 1}), SecPMT(modelPMT(1, 0x100, 2), ref.SecHdr{CNI: true, SN: 1, LSN: 1})}, nil), 2), nil, &ccs[1], true),
+		Packetize(withAF(PSIUnit(0x11, 0, sdtSecs, nil), 3), nil, &ccs[2], true),
 		append(Packetize(PESUnit(0x100, 0xe0, pesPayload(31, 200, seed), 1, false), nil, &ccs[3], false), Packetize(PESUnit(0x100, 0xe0, pesPayload(32, 20, seed), 2, false), nil, &ccs[3], false)...),
 	}
 	st := BuildStream("multi-section-units", lists, roundRobin(lists), nil)
